@@ -339,6 +339,7 @@ def validate(ctx, module, trace, label, key_fields=None, group=1, jopts="", samp
         for r in ex.map(_validate_chunk, jobs):
             res.append(r)
     nm = nk = 0
+    rejected = []      # (events of the case, info)
     for idx, mism, known, stats, distinct, generated, toolerr in res:
         if toolerr:
             sys.stdout.write(toolerr)
@@ -347,20 +348,45 @@ def validate(ctx, module, trace, label, key_fields=None, group=1, jopts="", samp
         ctx.transitions += generated
         if stats[0] != len(chunks[idx]):
             raise ToolError("trace validation consumed %d of %d lines" % (stats[0], len(chunks[idx])))
+        seen_cases = set()
         for (l, exp) in mism:
             ev = case_events(chunks[idx], l - 1, group)
-            ctx.violation(ev, {"module": module, "line": offs[idx] + l, "spec_expected": exp[:2000]})
-            nm += 1
+            key = json.dumps(ev[0], sort_keys=True)[:4000]
+            if key in seen_cases:
+                continue
+            seen_cases.add(key)
+            rejected.append((ev, {"module": module, "line": offs[idx] + l, "spec_expected": exp[:2000]}))
         for (kid, l) in known:
             ev = case_events(chunks[idx], l - 1, group)
-            if any(o["id"] == kid and ctx.pid in o["property"] for o in ctx.known_db["open"]):
-                ctx.known[kid] = ctx.known.get(kid, 0) + 1
-                ctx.known.setdefault("_sample_" + kid, ev)
-            else:
-                ctx.violation(ev, {"module": module, "line": offs[idx] + l, "unlisted_finding": kid})
-                nm += 1
-            nk += 1
+            nk += note_known(ctx, kid, ev, {"module": module, "line": offs[idx] + l})
         os.remove(jobs[idx][1])
+    # second pass (whole-request traces): is a rejected case exactly a listed known finding? The case is
+    # re-validated with the finding's deviant reading enabled where its matcher (in the spec) applies.
+    if rejected and kf == "none" and group == "begin":
+        for kid in sorted({o["id"] for o in ctx.known_db["open"]}):
+            still = []
+            p2 = os.path.join(d, "kf-%s.ndjson" % kid)
+            with open(p2, "w") as f:
+                for ev, info in rejected:
+                    f.write("\n".join(json.dumps(e) for e in ev) + "\n")
+            r2 = _validate_chunk((module, p2, d, 9000, jopts, kid))
+            if r2[6]:
+                sys.stdout.write(r2[6])
+                raise ToolError("known-finding pass did not run to completion")
+            bad_lines = {l for (l, _) in r2[1]}
+            pos = 1
+            for ev, info in rejected:
+                rng = range(pos, pos + len(ev))
+                pos += len(ev)
+                if any(l in bad_lines for l in rng):
+                    still.append((ev, info))
+                else:
+                    nk += note_known(ctx, kid, ev, info)
+            rejected = still
+            os.remove(p2)
+    for ev, info in rejected:
+        ctx.violation(ev, info)
+        nm += 1
     ncases = count_cases(lines, group)
     ctx.traces += ncases - nm - nk
     ctx.evaluations += ncases
@@ -380,6 +406,22 @@ def validate(ctx, module, trace, label, key_fields=None, group=1, jopts="", samp
     log("  val %-20s %8d events %6d cases  mismatches=%d known=%d  %6.1fs" %
         (label, len(lines), ncases, nm, nk, time.time() - t))
     return nm
+
+
+def note_known(ctx, kid, ev, info):
+    """A deviation that matches a finding's matcher. Listed for this property: counted and reported as
+    KNOWN-FINDING. Listed for another property only: it is that property's concern (reported there) and is
+    not a violation of this one. Not listed at all: a violation."""
+    listed = [o for o in ctx.known_db["open"] if o["id"] == kid]
+    if any(ctx.pid in o["property"] for o in listed):
+        ctx.known[kid] = ctx.known.get(kid, 0) + 1
+        ctx.known.setdefault("_sample_" + kid, ev)
+    elif listed:
+        ctx.known_elsewhere = getattr(ctx, "known_elsewhere", 0) + 1
+    else:
+        ctx.violation(ev, dict(info, unlisted_finding=kid))
+        return 0
+    return 1
 
 
 def is_begin(ln):
